@@ -785,6 +785,7 @@ func runC17(c *Ctx) {
 			}
 		}
 		c.check(same, "R3", "SETSTAT and FSETSTAT agree", "server.go", "sibling handlers apply the same table", fmt.Sprintf("SETSTAT applies %v but FSETSTAT applies %v", a, b))
+		checkSetstatTargetsAndOrder(c, "R3")
 	}
 	if nf := p.Func("newFileAttrFlags"); nf != nil {
 		wantBits := map[string]int64{"Size": 1, "UidGid": 2, "Permissions": 4, "Acmodtime": 8}
@@ -1041,5 +1042,58 @@ func checkOwnerSourcesAgree(c *Ctx, rule string) {
 		}
 		c.check(first, rule, "FileInfoUidGid precedes Sys() in the long name", p.Pos(rl.Pos()), "as in fileStatFromInfo, where it overrides",
 			"runLs looks at Sys() before FileInfoUidGid while fileStatFromInfo lets FileInfoUidGid override: an entry that has both shows one owner in the long name and another in its attributes")
+	}
+}
+
+// checkSetstatTargetsAndOrder (C17.R3, two more obligations per handler): FSETSTAT names an open file, so each change
+// goes through the file object, not through a path that may meanwhile name something else; and ownership is changed
+// before the mode, because chown(2) clears the set-user-ID and set-group-ID bits of a regular file — a request that
+// carries both would otherwise lose the special bits it asked for.
+func checkSetstatTargetsAndOrder(c *Ctx, rule string) {
+	p := c.P
+	for _, name := range []string{"(*sshFxpSetstatPacket).respond", "(*sshFxpFsetstatPacket).respond"} {
+		fn := p.Func(name)
+		if fn == nil {
+			c.missing(rule, name)
+			continue
+		}
+		short := map[bool]string{true: "FSETSTAT", false: "SETSTAT"}[strings.Contains(name, "Fsetstat")]
+		var chown, chmod []ssa.Instruction
+		byName := ""
+		eachInstr(fn, func(in ssa.Instruction) {
+			cc := callOf(in)
+			if cc == nil {
+				return
+			}
+			nm := calleeName(cc)
+			switch nm {
+			case "Chown":
+				chown = append(chown, in)
+			case "Chmod":
+				chmod = append(chmod, in)
+			}
+			if short == "FSETSTAT" {
+				if f := calleeFunc(cc); f != nil && f.Pkg() != nil && f.Pkg().Path() == "os" {
+					switch nm {
+					case "Truncate", "Chmod", "Chown", "Chtimes", "Lchown":
+						byName = "os." + nm
+					}
+				}
+			}
+		})
+		if short == "FSETSTAT" {
+			c.check(byName == "", rule, "FSETSTAT changes the open file, not a name", p.Pos(fn.Pos()), "every change goes through the file object of the handle",
+				"FSETSTAT applies "+byName+" to the name the file was opened under: after open(a); rename(a, b); create(a) the handle's file keeps its times and the new, unrelated a is changed (after a remove the request fails although the handle is valid)")
+		}
+		okOrder := len(chown) > 0 && len(chmod) > 0
+		for _, o := range chown {
+			for _, m := range chmod {
+				if !(blockReaches(o.Block(), m.Block()) && !blockReaches(m.Block(), o.Block())) {
+					okOrder = false
+				}
+			}
+		}
+		c.check(okOrder, rule, short+" sets the owner before the mode", p.Pos(fn.Pos()), "Chown, then Chmod",
+			short+" applies Chmod before Chown: chown(2) clears set-user-ID/set-group-ID on a regular file, so a request carrying PERMISSIONS 04755 together with UIDGID ends with mode 0755 although the status is OK")
 	}
 }
